@@ -186,6 +186,10 @@ MUTANTS = [
      "            if( r == 0 ) {\n               break;\n            }\n            m_end += r;", "            m_end += r;", ["C07"], "require() keeps calling the reader after it reported end of input (never returns)"),
     ("m78-star-spins-on-empty-match", I + "internal/until.hpp",
      "            if( in.empty() ) {\n               return false;\n            }\n            in.bump();", "            if( !in.empty() ) {\n               in.bump();\n            }", ["C02", "C03"], "until< R > spins at end of input instead of failing (no harness event inside the loop except rule attempts)"),
+    ("m79-parse-nested-catches-everything", I + "parse.hpp",
+     "      catch( std::exception& /*unused*/ ) {\n         Control< Rule >::raise_nested( am, st... );", "      catch( ... ) {\n         Control< Rule >::raise_nested( am, st... );", ["C05"], "parse_nested also converts exceptions that are not std::exception"),
+    ("m80-parse-nested-inner-position", I + "parse.hpp",
+     "         Control< Rule >::raise_nested( am, st... );", "         Control< Rule >::raise_nested( in, st... );", ["C05"], "parse_nested reports the inner input's position instead of the ambient one"),
     ("m73-tracer-unwind-no-pop", I + "contrib/trace.hpp",
      "      void unwind( const ParseInput& in, States&&... /*unused*/ )\n      {\n         const auto prev = m_stack.back();\n         m_stack.pop_back();", "      void unwind( const ParseInput& in, States&&... /*unused*/ )\n      {\n         const auto prev = m_stack.back();", ["C08"], "tracer keeps the entry of an unwound rule on its stack"),
     ("m74-state-control-apply0-not-forwarded", I + "contrib/state_control.hpp",
